@@ -132,7 +132,10 @@ func (nr *nativeRunner) run(harness string, values map[string]string, params map
 	}
 	cmd := exec.Command(nr.bin, "-test.run", "^TestVerifReplayDriver$", "-test.count=1", "-test.timeout=120s")
 	cmd.Dir = nr.pkgDir
-	cmd.Env = append(os.Environ(), "VERIF_REPLAY="+path)
+	// scratch files of the native harness go under the runner's directory, which is removed when the unit is done
+	scratch := filepath.Join(nr.tmp, "scratch")
+	os.MkdirAll(scratch, 0o755)
+	cmd.Env = append(os.Environ(), "VERIF_REPLAY="+path, "TMPDIR="+scratch)
 	var out bytes.Buffer
 	cmd.Stdout, cmd.Stderr = &out, &out
 	done := make(chan error, 1)
